@@ -17,6 +17,7 @@ import (
 	"unicode/utf8"
 
 	"github.com/wollac/iota-crypto-demo/pkg/bip39"
+	"github.com/wollac/iota-crypto-demo/pkg/bip39/wordlist"
 	"golang.org/x/text/unicode/norm"
 
 	"verif/harness/fw"
@@ -28,7 +29,7 @@ func init() {
 		ID:       "C03",
 		Builds:   []string{"default", "386"}, // the 386 build runs 1/4 of the random classes on a 32-bit target
 		Scale386: 4,
-		Rule: "wordlist: all 2048 indices of both built-in lists are read through EntropyToMnemonic (11 chosen indices per call) and compared with the official lists (embedded, SHA-256 checked against the published digests). encode: both lists x all 13 entropy lengths x {all-zero, all-one, k leading zero bytes for every k, trailing zero bytes, a single set bit at every position, random} plus sizes 0..70 for the size rule; sentence equality with the bit-level model and decode(encode(e)) == e. decode: valid sentences, the last word replaced by every word sharing its entropy bits (exactly one checksum value is accepted), one word replaced, rotations, lengths 0..50, words of the other list, NFC-composed words, empty strings, and (decode_collide) a list word replaced by a non-word found by search to collide with it under FNV-1a/32, FNV-1/32, CRC-32, CRC-32C, Adler-32, h*31+c, h*33+c, folded FNV-1a/64 or truncated SHA-256: accept iff the model accepts, entropy equality, re-encode fixed point, error class on reject. concurrent: 8 goroutines encode and decode entropies of all 13 sizes at once under one word list. " +
+		Rule: "wordlist: all 2048 indices of both built-in lists are read through EntropyToMnemonic (11 chosen indices per call) and compared with the official lists (embedded, SHA-256 checked against the published digests). encode: both lists x all 13 entropy lengths x {all-zero, all-one, k leading zero bytes for every k, trailing zero bytes, a single set bit at every position, random} plus sizes 0..70 for the size rule; sentence equality with the bit-level model and decode(encode(e)) == e. decode: valid sentences, the last word replaced by every word sharing its entropy bits (exactly one checksum value is accepted), one word replaced, rotations, lengths 0..50, words of the other list, NFC-composed words, empty strings, and (decode_collide) a list word replaced by a non-word found by search to collide with it under FNV-1a/32, FNV-1/32, CRC-32, CRC-32C, Adler-32, h*31+c, h*33+c, folded FNV-1a/64 or truncated SHA-256: accept iff the model accepts, entropy equality, re-encode fixed point, error class on reject. lists: every eighth case is preceded by a SetWordList call with an unregistered key (it must fail; the list of the last successful call stays in force); a user-defined list (English reversed, registered through RegisterWordList with a constructor that calls back into SetWordList) is selected for a few cases between the built-in ones; decode also gets sentences in which two adjacent words sit in one element. concurrent: 8 goroutines encode and decode entropies of all 13 sizes at once under one word list. " +
 			"Non-trivial: distinct (list, entropy) with a zero leading byte or more than 32 bytes, and distinct rejected sentences.",
 		Assumptions: []string{"SHA-256 of the Go standard library", "the embedded official word lists (checked against the published SHA-256 digests of english.txt and japanese.txt)", "the bit-level model in harness/oracle/bip39m (self-tested on Trezor vectors)"},
 		SelfTest:    bip39m.SelfTest,
@@ -58,23 +59,67 @@ func init() {
 			}
 			return m
 		},
-		Required: []string{"sentences with a non-word that collides with a list word under a 32-bit digest", "wordlist indices compared", "encode ok", "encode leading zero byte", "size refused", "decode model=accept impl=accept", "decode model=reject impl=reject", "decode reject: checksum mismatch", "decode reject: word not in list", "decode reject: bad word count"},
+		Required: []string{"failed SetWordList calls in front of a case", "sentences with a non-word that collides with a list word under a 32-bit digest", "wordlist indices compared", "encode ok", "encode leading zero byte", "size refused", "decode model=accept impl=accept", "decode model=reject impl=reject", "decode reject: checksum mismatch", "decode reject: word not in list", "decode reject: bad word count"},
 	})
 }
 
 func lang(b byte) string {
-	if b == 1 {
+	switch b {
+	case 1:
 		return "japanese"
+	case 2:
+		return bip39m.ReversedEnglish
 	}
 	return "english"
 }
+
+// userList is a user-defined word list registered through the public RegisterWordList: the English words
+// in reverse order. Its constructor calls back into SetWordList (re-entrant use) before it returns.
+type userList struct{ l *bip39m.List }
+
+func (u userList) Contains(w string) bool { _, ok := u.l.Index[w]; return ok }
+func (u userList) Word(i int) string      { return u.l.Words[i] }
+func (u userList) Index(w string) int {
+	i, ok := u.l.Index[w]
+	if !ok {
+		panic("unknown word")
+	}
+	return i
+}
+
+func init() {
+	bip39.RegisterWordList(bip39m.ReversedEnglish, func() wordlist.List {
+		_ = bip39.SetWordList("english") // re-entrant call: overwritten by the selection in progress
+		return userList{bip39m.Lang(bip39m.ReversedEnglish)}
+	})
+}
+
+// unknownKeys are not registered: SetWordList must fail for them, and the list in force stays the one of
+// the last call that returned nil.
+var unknownKeys = []string{"Japanese", "ENGLISH", "", "english ", "klingon", "japanese\x00"}
 
 var kept fw.Keeper
 
 var current = ""
 
 // setLang switches the process-wide word list (the property does not cover concurrent switching).
-func setLang(o *fw.Obs, l string) bool {
+func setLang(o *fw.Obs, l string, sel uint64) bool {
+	defer func() {
+		// every eighth case: a selection that fails right before the case
+		if sel%8 != 0 {
+			return
+		}
+		bad := unknownKeys[int((sel/8)%uint64(len(unknownKeys)))]
+		var err error
+		if !o.Try("SetWordList(unknown key)", func() { err = bip39.SetWordList(bad) }) {
+			return
+		}
+		if err == nil {
+			o.Fail("setwordlist", "SetWordList(%q) returned nil for a key that is not registered", bad)
+			return
+		}
+		o.Count("failed SetWordList calls in front of a case")
+	}()
 	if current == l {
 		return true
 	}
@@ -94,7 +139,7 @@ func judge(class string, key []byte, o *fw.Obs) {
 	p := fw.Unpack(key)
 	l := lang(p[0][0])
 	list := bip39m.Lang(l)
-	if !setLang(o, l) {
+	if !setLang(o, l, fw.Fingerprint(class, key)) {
 		return
 	}
 	switch class {
@@ -454,6 +499,12 @@ func gen(g *fw.Gen) {
 				w[a], w[b] = w[b], w[a]
 				emitWords(g, l, w)
 			}
+			if n%16 == 0 { // two adjacent words in ONE element (joined by a blank, an ideographic space, a tab): not a word
+				j := g.Rng.Intn(len(words) - 1)
+				sepc := []string{" ", "\u3000", "\t", "  "}[g.Rng.Intn(4)]
+				m := append(append(append([]string(nil), words[:j]...), words[j]+sepc+words[j+1]), words[j+2:]...)
+				emitWords(g, l, m)
+			}
 		}
 		// non-words that collide with a list word under a common 32-bit digest (a word index keyed by a
 		// hash of the word that never confirms the string): found by search, put in place of that word in an
@@ -504,6 +555,16 @@ func gen(g *fw.Gen) {
 		emitOnce(nil)
 		emitOnce([]string{""})
 		emitOnce(make([]string, 12))
+	}
+	// a user-defined list (registered through RegisterWordList, constructor re-entrant) is selected for a
+	// few cases, then English again: what the next cases see must be the list of the last successful selection
+	for _, l := range []byte{2, 0, 2, 1} {
+		list := bip39m.Lang(lang(l))
+		for n := g.Pick(6, 60); n > 0; n-- {
+			e := g.Bytes(16 + 4*g.Rng.Intn(13))
+			g.Emit("encode", fw.Pack([]byte{l}, e))
+			emitWords(g, l, list.Encode(e))
+		}
 	}
 }
 
